@@ -5,14 +5,18 @@
     (maximal runs, first comment closer) and fix its values on a set of pinned neighbourhoods;
     (b) the check, which runs the extracted [reflex] and the implementation on the same
     macro-free inputs and reports every difference as a violation with the (shrunk) input.
-    (c) [C11_lexer_is_reference_partial]: on macro-free text without double-quote characters the lexer
-    model's release-profile run returns, is not cut by the budget, and yields exactly the
-    reference reading - types, channels, byte offsets and payloads of all tokens, kinds and offsets
-    of all errors, the literal buffer - for every such text, by simulation of every lexeme class
-    (whitespace, comments, symbols, numbers, identifiers and keywords, character formats,
-    datalines blocks, statement comments, single-quoted literals with suffixes and hex decoding).
-    The full statement [C11_statement] drops the double-quote
-    restriction; for double-quoted literals it is established by execution (b), not yet by a theorem. *)
+    (c) [C11_lexer_is_reference], which proves the statement [C11_statement] for the lexer model:
+    on every macro-free text (no macro trigger anywhere, quoted text included; with or without a
+    byte-order mark; either setting of the macro-separator switch) the model's release-profile run
+    returns, is not cut by the iteration budget, and yields exactly the reference reading - types,
+    channels, byte offsets and payloads of all tokens, kinds and offsets of all errors, the literal
+    buffer. The proof is a simulation: every lexeme class of the reference (whitespace, comments,
+    symbols, numbers, identifiers and keywords, character formats, datalines blocks, statement
+    comments, single- and double-quoted literals with suffixes, escapes, hex decoding and the
+    unterminated forms) is matched by one or two iterations of the model's main loop, and the
+    text that ends right after an opening double quote by [finalize_lexing]. No size bound.
+    What ties the model to the Rust code is the correspondence check (the same inputs run through
+    the extracted model and the implementation, both profiles). *)
 From Coq Require Import NArith List Bool String Ascii.
 From SasLexer Require Import Gen.TokenType Gen.ErrorKind Gen.Channel Model.Base Model.Helpers Model.Numeric
      Model.Core Model.Lexer3 Spec.RefLex Proofs.RefLexProofs Proofs.OcBase Proofs.OcWhole Proofs.OcAll.
@@ -59,18 +63,14 @@ Definition agrees (msep : bool) (src : list char) : Prop :=
 
 Definition C11_statement : Prop := forall msep src, macro_free (body_of src) = true -> agrees msep src.
 
-Theorem C11_lexer_is_reference_partial : forall msep src,
-  macro_free (body_of src) = true -> forallb no_quote (body_of src) = true -> agrees msep src.
-Proof.
-  intros msep src H1 H2. apply lex_is_reflex_noquote. unfold okP. rewrite H1, H2. reflexivity.
-Qed.
-Print Assumptions C11_lexer_is_reference_partial.
+Theorem C11_lexer_is_reference : C11_statement.
+Proof. intros msep src H. exact (lex_is_reflex_macro_free msep src H). Qed.
+Print Assumptions C11_lexer_is_reference.
 
-(** the premises are satisfiable: "data a; x=1.5e3*b; run;" *)
-Example c11_partial_example :
-  let src := chars_of_string "data a; x=1.5e3*b; run;" in
-  macro_free (body_of src) = true /\ forallb no_quote (body_of src) = true.
-Proof. vm_compute. split; reflexivity. Qed.
+(** the premise is satisfiable, by texts with both kinds of quoted literals, comments and a datalines block *)
+Example c11_premise_example :
+  macro_free (body_of (chars_of_string "data a; x=""a""""b""n; y='41'x; *c; /*d*/ cards; 1 2;; run;")) = true.
+Proof. vm_compute. reflexivity. Qed.
 
 (** pinned neighbourhoods (evaluated by the kernel) *)
 Definition types_of (s : string) : list TokenType := map rt_type (fst (fst (reflex (chars_of_string s)))).
